@@ -23,6 +23,9 @@ FAULTS = [
     (['vw.nosuch:', '  x = 1'], 0, ValueError, False),                # block of unknown configurable
     (['vw.src:', '  v = 3', '  nope = 1', '  v = 4'], 2, ValueError, False),   # duplicate member after the bad one
     (['vw.src:', '  nope = 0', '  v = 1', '  nope = 2'], 1, ValueError, False),  # the FIRST bad member is named
+    (['fam.p = 1'], 0, KeyError, False),                                # ambiguous short selector (binding)
+    (['fam:', '  p = 1'], 0, KeyError, False),                          # ambiguous short selector (block header)
+    (['vw.src.v = @fam()'], (0, 1), KeyError, False),                    # ambiguous reference (its own line may be named)
     ([], None, None, False),                                          # no fault
 ]
 NFAULT = len(FAULTS)
@@ -40,7 +43,7 @@ def snapshot():
 def c16_fault(cont: bool, fault: int, pos: int, depth: int, lead: int, amb: bool, locked: bool,
               v0: int, v1: int, v2: int) -> bool:
   """
-  pre: 0 <= fault < 16 and 0 <= pos < 4 and 0 <= depth < 3 and 0 <= lead < 3
+  pre: 0 <= fault < 19 and 0 <= pos < 4 and 0 <= depth < 3 and 0 <= lead < 3
   """
   world.fresh()
   fault = rt.pick(fault, NFAULT)
@@ -232,16 +235,16 @@ HARNESSES = {
                  'gin.utils:augment_exception_message_and_reraise', 'gin.config:_parse_scope'],
         smoke=[dict(cont=False, fault=4, pos=2, depth=2, lead=1, amb=True, locked=True, v0=1, v1=2, v2=3),
                dict(cont=False, fault=0, pos=1, depth=1, lead=2, amb=False, locked=False, v0=1, v1=2, v2=3),
-               dict(cont=True, fault=15, pos=0, depth=2, lead=0, amb=False, locked=False, v0=1, v1=2, v2=3),
+               dict(cont=True, fault=18, pos=0, depth=2, lead=0, amb=False, locked=False, v0=1, v1=2, v2=3),
                dict(cont=True, fault=5, pos=3, depth=0, lead=0, amb=False, locked=False, v0=1, v1=2, v2=3)],
         tiers={'quick': dict(split=dict(fault=list(range(NFAULT)), depth=[0, 1, 2]),
                              fixed=dict(lead=1), budget_s=100),
                'thorough': dict(split=dict(fault=list(range(NFAULT)), depth=[0, 1, 2], lead=[0, 1, 2]),
                                 budget_s=300)},
-        bounds='3 good statements (values: all ints, through constants) + one of 15 faults (bad value, missing value, '
+        bounds='3 good statements (values: all ints, through constants) + one of 18 faults (bad value, missing value, '
                'unbalanced bracket, bad selector, unknown parameter / configurable / reference (on the 2nd line of its '
                'value), deny-listed parameter, bad include, bad import, semantically / syntactically bad block member, '
-               'block of an unknown configurable, a bad member between / before duplicate members of one block) at position 0-3, include depth 0-2, 0-2 leading blank/comment '
+               'block of an unknown configurable, a bad member between / before duplicate members of one block, an ambiguous short selector as binding target / block header / reference) at position 0-3, include depth 0-2, 0-2 leading blank/comment '
                'lines, statements optionally written with a backslash continuation between the key / keyword and the rest, with/without an ambient scope, with/without a finalized config re-opened by unlock_config'),
 }
 ASSUMPTIONS = ['the binding store is read through get_bindings(inherit_scopes=False) over the keys of the private '
